@@ -779,6 +779,143 @@ Lemma response_proof : forall rs ips,
   response_match rs ips = response_first_hit (resp_spec_rules rs) ips 0.
 Proof. intros. now apply response_loop_spec. Qed.
 
+(* ------------------------------------------------------------------ the stored form of a rule's set *)
+
+Definition stored_inv (b : builder) : Prop :=
+  forall r, In r (b_rules b) -> nth_error (b_tries b) (N.to_nat (r_index r)) = Some (stored_form r).
+
+Lemma stored_inv_step : forall hash b o, builder_inv b -> stored_inv b -> stored_inv (step hash b o).
+Proof.
+  intros hash b [src not raw | not macs] [I1 _] S; cbn [step].
+  - unfold add_ip. cbv zeta.
+    set (values := canonicalize raw). set (h := hash values).
+    assert (Hnew : forall i, stored_form {| r_role := if src then RSrc else RDst; r_not := not; r_index := i; r_values := raw |} = values).
+    { intros i. unfold stored_form. cbn [r_role r_values]. destruct src; reflexivity. }
+    destruct (dedup_get (b_dedup b) h) as [[i ps]|] eqn:G; [destruct (prefixes_equal ps values) eqn:E|];
+      intros r Hr; cbn [b_rules b_tries] in *; apply in_app_or in Hr as [Hr|[<-|[]]].
+    + now apply S.
+    + apply prefixes_equal_eq in E. subst ps. rewrite Hnew. cbn [r_index]. now apply I1 in G.
+    + apply nth_error_snoc_old. now apply S.
+    + rewrite Hnew. cbn [r_index]. apply nth_error_snoc_new.
+    + apply nth_error_snoc_old. now apply S.
+    + rewrite Hnew. cbn [r_index]. apply nth_error_snoc_new.
+  - unfold add_source_mac. cbv zeta. intros r Hr. cbn [b_rules b_tries] in *.
+    apply in_app_or in Hr as [Hr|[<-|[]]].
+    + apply nth_error_snoc_old. now apply S.
+    + unfold stored_form. cbn [r_role r_values r_index]. apply nth_error_snoc_new.
+Qed.
+
+Lemma stored_inv_run : forall hash ops, stored_inv (run hash ops).
+Proof.
+  intros hash ops. unfold run.
+  assert (H : forall b, builder_inv b -> stored_inv b ->
+                        builder_inv (fold_left (step hash) ops b) /\ stored_inv (fold_left (step hash) ops b)).
+  { induction ops as [|o ops IH]; intros b I S; [now split|]. cbn [fold_left].
+    apply IH; [now apply inv_step | now apply stored_inv_step]. }
+  apply H; [apply inv_new | intros r []].
+Qed.
+
+(* ------------------------------------------------------------------ snapshot / userspace / install orders *)
+
+Definition order_inv (big : bool) (tries : list (list prefix)) (m : mem) : Prop :=
+  m_array m = tries
+  /\ (forall inst, In inst (m_installs m) -> inst = kernel_keys_of big tries)
+  /\ (forall l, m_lpm m = Some l -> l = build_userspace tries).
+
+Lemma order_inv_step : forall big tries m s m',
+  order_inv big tries m -> bstep_run false big m s = Some m' -> order_inv big tries m'.
+Proof.
+  intros big tries m s m' [IA [II IL]] H. destruct s; cbn [bstep_run] in H.
+  - injection H as <-. repeat split; assumption.
+  - destruct (m_snap m) as [[|]|]; try discriminate. injection H as <-.
+    repeat split; cbn [m_array m_installs m_lpm]; try assumption.
+    intros inst Hin. apply in_app_or in Hin as [Hin|[<-|[]]]; [now apply II | now rewrite IA].
+  - destruct (m_builder m); [|discriminate]. injection H as <-.
+    repeat split; cbn [m_array m_installs m_lpm]; try assumption.
+    intros l E. injection E as <-. now rewrite IA.
+Qed.
+
+Lemma order_inv_run : forall big tries order m m',
+  order_inv big tries m -> order_run false big m order = Some m' -> order_inv big tries m'.
+Proof.
+  intros big tries order. induction order as [|s rest IH]; intros m m' I H; cbn [order_run] in H.
+  - now injection H as <-.
+  - destruct (bstep_run false big m s) as [m1|] eqn:E; [|discriminate].
+    eapply IH; [eapply order_inv_step; eassumption | assumption].
+Qed.
+
+Lemma order_inv_init : forall big tries, order_inv big tries (mem_init tries).
+Proof. intros. repeat split; cbn; [intros ? [] | discriminate]. Qed.
+
+Lemma keys_match_of_set : forall big s a,
+  keys_match big (map (cidr_to_lpm_key big) s) a = kernel_match big s a.
+Proof. intros. unfold keys_match, kernel_match, kernel_lookup, lpm_map_of. now rewrite map_map. Qed.
+
+Lemma same_set_any_order_proof : forall (hash : list prefix -> N) big ops order m,
+  forallb wf_op ops = true ->
+  order_run false big (mem_init (b_tries (run hash ops))) order = Some m ->
+  (forall inst, In inst (m_installs m) -> inst = kernel_keys_of big (canonical_tries hash ops))
+  /\ (forall inst l r keys t a,
+        In inst (m_installs m) -> m_lpm m = Some l -> In r (b_rules (run hash ops)) -> wf_addr a = true ->
+        nth_error inst (N.to_nat (r_index r)) = Some keys -> nth_error l (N.to_nat (r_index r)) = Some t ->
+        keys = map (cidr_to_lpm_key big) (stored_form r)
+        /\ keys_match big keys a = has_prefix t (probe_bin a)
+        /\ has_prefix t (probe_bin a) = set_contains (r_values r) a).
+Proof.
+  intros hash big ops order m Hops H.
+  pose proof (order_inv_run big _ order _ m (order_inv_init big _) H) as [_ [II IL]].
+  split; [exact II|].
+  intros inst l r keys t a Hin Hl Hr Ha Hk Ht.
+  rewrite (II inst Hin) in Hk. rewrite (IL l Hl) in Ht.
+  unfold kernel_keys_of in Hk. unfold build_userspace in Ht. rewrite nth_error_map in Hk, Ht.
+  destruct (inv_run hash ops) as [_ I]. destruct (I r Hr) as [s [Hs Hm]].
+  pose proof (stored_inv_run hash ops r Hr) as Hst. rewrite Hs in Hst. injection Hst as Hst.
+  unfold canonical_tries in Hk. rewrite Hs in Hk, Ht. cbn [option_map] in Hk, Ht.
+  injection Hk as <-. injection Ht as <-.
+  split; [now rewrite Hst|].
+  assert (Hw : forallb wf_prefix s = true).
+  { apply forallb_forall. intros p Hp.
+    apply (all_P_run hash wf_prefix ops (forallb_impl _ _ _ _ wf_op_all Hops) s); [|assumption].
+    eapply nth_error_In; eassumption. }
+  rewrite keys_match_of_set.
+  change (has_prefix (new_trie_from_prefixes s) (probe_bin a)) with (trie_match s a).
+  rewrite lpm_key_contains_proof, trie_contains_proof by assumption.
+  split; [reflexivity | now apply set_contains_members].
+Qed.
+
+Lemma same_set_aliased_clear_refuted_proof :
+  exists ops order m inst l keys t a,
+    forallb wf_op ops = true /\ wf_addr a = true /\
+    order_run true false (mem_init (b_tries (run hash_lpm_set ops))) order = Some m /\
+    In inst (m_installs m) /\ m_lpm m = Some l /\
+    nth_error inst 0 = Some keys /\ nth_error l 0 = Some t /\
+    keys = [] /\ keys_match false keys a = false /\ has_prefix t (probe_bin a) = true.
+Proof.
+  set (ops := [OpIp false false [{| p_is4 := true; p_addr := 0x0a000000; p_bits := 8 |}]]).
+  set (order := [SSnapshot; SUserspace; SInstall]).
+  destruct (order_run true false (mem_init (b_tries (run hash_lpm_set ops))) order) as [m|] eqn:E;
+    [|vm_compute in E; discriminate].
+  exists ops, order, m, [[]], (build_userspace (b_tries (run hash_lpm_set ops))), [],
+         (new_trie_from_prefixes [{| p_is4 := true; p_addr := 0x0a000000; p_bits := 8 |}]), (v4_mapped 0x0a010203).
+  vm_compute in E. injection E as <-.
+  repeat split; try reflexivity; vm_compute; auto.
+Qed.
+
+Lemma any_order_nonvacuous_proof :
+  let a := {| p_is4 := true; p_addr := 0xc6336400; p_bits := 24 |} in
+  let b := {| p_is4 := false; p_addr := 0x20010db8000000000000000000000000; p_bits := 32 |} in
+  let ops := [OpIp false false [b; a]; OpMac false [0x001122334455]] in
+  let tries := b_tries (run hash_lpm_set ops) in
+  forall order, In order [[SSnapshot; SInstall; SUserspace]; [SSnapshot; SUserspace; SInstall];
+                          [SSnapshot; SInstall; SUserspace; SInstall]] ->
+    exists m, order_run false true (mem_init tries) order = Some m
+              /\ m_installs m <> [] /\ m_lpm m <> None
+              /\ forallb (fun inst => Nat.eqb (length (concat inst)) 3) (m_installs m) = true.
+Proof.
+  cbv zeta. intros order [<-|[<-|[<-|[]]]]; eexists; (split; [vm_compute; reflexivity|]);
+    repeat split; try discriminate; reflexivity.
+Qed.
+
 (* ------------------------------------------------------------------ statements as used by C12_Props *)
 
 Lemma same_set_proof : forall big ps a,
